@@ -973,7 +973,7 @@ pub fn c10_spellings(rep: &mut Report) {
 /// conflict <=> same text and equal effective priority.
 pub fn c08(a: &Args) -> Report {
     let mut rep = Report::new(&a.prop, "vgraph c08 (attribute-level ties)", &a.tier_name);
-    rep.bounds.insert("rule".into(), "pairs of definitions (same text, or disjoint texts) x 5 callbacks each x 6 priority assignments x 5 placements (two attributes on one variant, two variants, skip + variant, two skip items, skip + skip in one attribute) x with/without ignore(case): the derive must report an ambiguity iff the texts are equal and the effective priorities are equal - whatever the callbacks. Non-trivial = the two definitions overlap.".into());
+    rep.bounds.insert("rule".into(), "pairs of definitions (same text, or disjoint texts) x 5 callbacks each x 6 priority assignments x 5 placements (two attributes on one variant, two variants, skip + variant, two skip items, skip + skip in one attribute) x with/without ignore(case): the derive must report an ambiguity iff the texts are equal and the effective priorities are equal - whatever the callbacks; plus the SPELLING family: 26 ways of writing tokens / regexes with known finite languages (escapes, raw and byte strings, cased twins under ignore(case), equivalent regexes), every ordered pair x 4 priority assignments x 4 surroundings (alone, among 1 / 4 further tokens, two attributes on one variant): ambiguity iff the languages intersect and the effective priorities are equal. Non-trivial = the two definitions overlap.".into());
     let texts: [(&str, &str, &str, u32); 4] = [("regex", "[0-9]+", "[a-z]+", 2), ("token", "if", "while", 4), ("regex", "a|b", "c|d", 2), ("token", "é", "ü", 4)];
     let cbs = ["", ", |_| 1", ", |_| 2", ", cb_one", ", callback = cb_two"];
     // (explicit priority of the first, of the second); None = default (equal for equal texts)
@@ -1020,6 +1020,58 @@ pub fn c08(a: &Args) -> Report {
             }
         }
     }
+    // SPELLINGS: the same language written differently (escapes, raw strings, byte strings, a cased
+    // twin under ignore(case), equivalent regexes). A tie is a property of the LANGUAGES; every way of
+    // recognising "these two cannot overlap" from the text alone has to be wrong somewhere in here.
+    // Each entry: (attribute, arguments, the language as an explicit finite set, default priority)
+    {
+        let lang = |v: &[&str]| -> BTreeSet<String> { v.iter().map(|x| x.to_string()).collect() };
+        let entries: Vec<(&str, &str, BTreeSet<String>, u32)> = vec![
+            ("token", "\"ab\"", lang(&["ab"]), 4),
+            ("token", "b\"ab\"", lang(&["ab"]), 4),
+            ("token", "\"\\x61b\"", lang(&["ab"]), 4),
+            ("token", "\"a\\u{62}\"", lang(&["ab"]), 4),
+            ("token", "r\"ab\"", lang(&["ab"]), 4),
+            ("token", "r#\"ab\"#", lang(&["ab"]), 4),
+            ("token", "\"ab\", ignore(case)", lang(&["ab", "aB", "Ab", "AB"]), 4),
+            ("token", "\"AB\", ignore(case)", lang(&["ab", "aB", "Ab", "AB"]), 4),
+            ("token", "\"aB\", ignore(case)", lang(&["ab", "aB", "Ab", "AB"]), 4),
+            ("token", "\"AB\"", lang(&["AB"]), 4),
+            ("token", "\"Ab\"", lang(&["Ab"]), 4),
+            ("token", "\"ac\"", lang(&["ac"]), 4),
+            ("token", "\"abc\"", lang(&["abc"]), 6),
+            ("token", "\"é\"", lang(&["é"]), 4),
+            ("token", "\"\\u{e9}\"", lang(&["é"]), 4),
+            ("token", "b\"\\xc3\\xa9\"", lang(&["é"]), 4),
+            ("token", "\"É\", ignore(case)", lang(&["é", "É"]), 4),
+            ("regex", "\"ab\"", lang(&["ab"]), 4),
+            ("regex", "\"a[b]\"", lang(&["ab"]), 4),
+            ("regex", "\"(?:a)b\"", lang(&["ab"]), 4),
+            ("regex", "\"(?i)ab\"", lang(&["ab", "aB", "Ab", "AB"]), 4),
+            ("regex", "\"[aA][bB]\"", lang(&["ab", "aB", "Ab", "AB"]), 4),
+            ("regex", "\"ab|AB\"", lang(&["ab", "AB"]), 4),
+            ("regex", "\"a[bc]\"", lang(&["ab", "ac"]), 4),
+            ("regex", "b\"ab\"", lang(&["ab"]), 4),
+            ("regex", "\"é\"", lang(&["é"]), 2),
+        ];
+        let fillers = ["", ", #[token(\"zz\")] Z", ", #[token(\"zz\")] Z, #[token(\"if\")] If, #[token(\"else\")] Else, #[token(\"while\")] While"];
+        for (i, (k1, a1, l1, d1)) in entries.iter().enumerate() {
+            for (j, (k2, a2, l2, d2)) in entries.iter().enumerate() {
+                if i == j {
+                    continue;
+                }
+                let overlap = l1.intersection(l2).next().is_some();
+                for (p1, p2) in [(None, None), (Some(9u32), Some(9u32)), (Some(9), Some(8)), (Some(*d2), None)] {
+                    let arg = |a: &str, p: Option<u32>| format!("{a}{}", p.map(|p| format!(", priority = {p}")).unwrap_or_default());
+                    let conflict = overlap && p1.unwrap_or(*d1) == p2.unwrap_or(*d2);
+                    for fill in fillers {
+                        cases.push((format!("enum T {{ #[{k1}({})] A, #[{k2}({})] B{fill} }}", arg(a1, p1), arg(a2, p2)), conflict, overlap));
+                    }
+                    cases.push((format!("enum T {{ #[{k1}({})] #[{k2}({})] A, #[token(\"zz\")] Z }}", arg(a1, p1), arg(a2, p2)), conflict, overlap));
+                }
+            }
+        }
+    }
     let outs: Vec<Option<Violation>> = cases
         .par_iter()
         .map(|(src, conflict, _)| {
@@ -1034,7 +1086,7 @@ pub fn c08(a: &Args) -> Report {
                 return Some(viol("CONFLICT-SPURIOUS", "c08", src.clone(), format!("well-formed definition rejected: {:?}", other), json!({"src": src, "expect": conflict})));
             }
             if *conflict && !reported {
-                Some(viol("CONFLICT-MISSED", "c08", src.clone(), "two definitions with the same text and the same priority, but no ambiguity is reported".into(), json!({"src": src, "expect": true})))
+                Some(viol("CONFLICT-MISSED", "c08", src.clone(), "two definitions that match a common string at the same priority, but no ambiguity is reported".into(), json!({"src": src, "expect": true})))
             } else if !*conflict && reported {
                 Some(viol("CONFLICT-SPURIOUS", "c08", src.clone(), format!("an ambiguity is reported although the definitions have different priorities or disjoint texts: {:?}", g.observed.errors.first()), json!({"src": src, "expect": false})))
             } else {
